@@ -198,12 +198,15 @@ def run(tier):
             args += ["-p", "-b", str(j["c"])]
         elif ok.startswith("-r"):
             args += [ok]
+        if common._hangs[0] >= common.HANG_LIMIT:  # circuit breaker (vlib/common.py): the hangs seen so far are violations already
+            return {"rc": "skipped", "stdout": b"", "stderr": b"", "file": None, "argv": args}
         try:
             if j["src"] == "FILE":
-                r = subprocess.run(args + [src], capture_output=True, env=env, timeout=60, stdin=subprocess.DEVNULL)
+                r = subprocess.run(args + [src], capture_output=True, env=env, timeout=30, stdin=subprocess.DEVNULL)
             else:
-                r = subprocess.run(args, capture_output=True, env=env, timeout=60, input=text.encode())
+                r = subprocess.run(args, capture_output=True, env=env, timeout=30, input=text.encode())
         except subprocess.TimeoutExpired:
+            common._hangs[0] += 1
             return {"rc": -999, "stdout": b"", "stderr": b"timeout", "file": None, "argv": args}
         data = None
         if outfile:
@@ -222,6 +225,12 @@ def run(tier):
         R = ref[j["ref"]]
         case = {"key": "asmline %s %s <%s> prog=%s" % (" ".join(j["flags"]), j["out"], j["src"], "; ".join(j["prog"])[:120]), "fam": "asmline", "out": j["out"], "src": j["src"],
                 "flags": j["flags"], "argv": o["argv"], "program": j["prog"], "c": j.get("c"), "final_newline": j["final_newline"]}
+        if R is None:
+            v.violation(case, "reference-crashed", None)
+            continue
+        if o["rc"] == "skipped":
+            v.violation(case, "skipped:after-repeated-hangs", None)
+            continue
         err = o["stderr"].decode("latin-1")
         sig = common.san_summary(err)
         if sig or o["rc"] < 0 or o["rc"] > 1 and o["rc"] != 97:
